@@ -23,12 +23,44 @@ struct Spec {
     expiry: u64,
     timeout: u64,
     secret: String,
+    /// build the Config through Config::read() from a generated YAML file + secret file instead
+    /// of filling the struct (covers defaults, field names and the secret-file layer)
+    from_file: bool,
 }
 
-fn start_listener(spec: &Spec) -> SocketAddr {
+static ENV_LOCK: std::sync::Mutex<()> = std::sync::Mutex::new(());
+
+/// The operator's way: a config file and an auth-secret file, read by `Config::read()`.
+fn config_from_file(spec: &Spec, addr: SocketAddr) -> Result<Config, String> {
+    let dir = std::path::PathBuf::from(std::env::var("VERIF_ROOT").unwrap_or_else(|_| "/verif".into())).join(".run").join(format!("c14-{}-{}", std::process::id(), addr.port()));
+    std::fs::create_dir_all(&dir).map_err(|e| e.to_string())?;
+    let yaml = format!(
+        "address: \"{addr}\"\ntimeout: {}\nmax_packet_length: {}\nauth_cookie_expiry: {}\nadapters:\n  discovery:\n    fixed:\n      targets:\n      - identifier: \"only\"\n        address: \"10.9.8.7:25565\"\n  authentication:\n    fixed:\n      profile:\n        id: \"00000000-0000-0000-0000-00000000004d\"\n        name: \"FixedUser\"\n",
+        spec.timeout, spec.max_packet_length, spec.expiry
+    );
+    let cfg_path = dir.join("config.yaml");
+    let secret_path = dir.join("auth_secret");
+    std::fs::write(&cfg_path, yaml).map_err(|e| e.to_string())?;
+    std::fs::write(&secret_path, &spec.secret).map_err(|e| e.to_string())?;
+    let _g = ENV_LOCK.lock().unwrap_or_else(|e| e.into_inner());
+    // SAFETY: the variables are only read by Config::read() below, under the same lock
+    unsafe {
+        std::env::set_var("CONFIG_FILE", &cfg_path);
+        std::env::set_var("AUTH_SECRET_FILE", &secret_path);
+    }
+    let res = Config::read().map_err(|e| format!("Config::read failed: {e}"));
+    unsafe {
+        std::env::remove_var("CONFIG_FILE");
+        std::env::remove_var("AUTH_SECRET_FILE");
+    }
+    let _ = std::fs::remove_dir_all(&dir);
+    res
+}
+
+fn start_listener(spec: &Spec) -> Result<SocketAddr, String> {
     let port = tcp::free_port();
     let addr: SocketAddr = format!("127.0.0.1:{port}").parse().expect("addr");
-    let config = Config {
+    let config = if spec.from_file { config_from_file(spec, addr)? } else { Config {
         address: addr.to_string(),
         timeout: spec.timeout,
         max_packet_length: spec.max_packet_length,
@@ -40,7 +72,7 @@ fn start_listener(spec: &Spec) -> SocketAddr {
             ..Default::default()
         },
         ..Default::default()
-    };
+    } };
     std::thread::spawn(move || {
         let rt = tokio::runtime::Builder::new_multi_thread().worker_threads(2).enable_all().build().expect("runtime");
         let res = rt.block_on(passage::start(config));
@@ -48,7 +80,7 @@ fn start_listener(spec: &Spec) -> SocketAddr {
             eprintln!("passage::start ended: {e}");
         }
     });
-    addr
+    Ok(addr)
 }
 
 #[derive(Debug)]
@@ -231,23 +263,29 @@ pub async fn run(cli: &Cli, report: &mut Report) {
     let lateness = tcp::Lateness::start();
     let specs: Vec<Spec> = {
         let mut v = vec![
-            Spec { max_packet_length: 64, expiry: 5, timeout: 1, secret: "operator secret A".into() },
-            Spec { max_packet_length: 16, expiry: 60, timeout: 2, secret: "operator secret E".into() },
-            Spec { max_packet_length: 400, expiry: 60, timeout: 2, secret: "operator secret B".into() },
-            Spec { max_packet_length: 2000, expiry: 5, timeout: 3, secret: "s".into() },
+            Spec { max_packet_length: 64, expiry: 5, timeout: 1, secret: "operator secret A".into(), from_file: true },
+            Spec { max_packet_length: 16, expiry: 60, timeout: 2, secret: "operator secret E".into(), from_file: false },
+            Spec { max_packet_length: 400, expiry: 60, timeout: 2, secret: "operator secret B".into(), from_file: true },
+            Spec { max_packet_length: 2000, expiry: 5, timeout: 3, secret: "s".into(), from_file: false },
             // long deadline: room for clients that stall before presenting their cookie
-            Spec { max_packet_length: 1000, expiry: 5, timeout: 8, secret: "operator secret F".into() },
+            Spec { max_packet_length: 1000, expiry: 5, timeout: 8, secret: "operator secret F".into(), from_file: false },
         ];
         if thorough {
-            v.push(Spec { max_packet_length: 1000, expiry: 60, timeout: 18, secret: "operator secret C".into() });
-            v.push(Spec { max_packet_length: 500, expiry: 3600, timeout: 4, secret: "operator secret D".into() });
+            v.push(Spec { max_packet_length: 1000, expiry: 60, timeout: 18, secret: "operator secret C".into(), from_file: false });
+            v.push(Spec { max_packet_length: 500, expiry: 3600, timeout: 4, secret: "operator secret D".into(), from_file: false });
         }
         v
     };
     let mut futures: Vec<std::pin::Pin<Box<dyn std::future::Future<Output = Outcome>>>> = vec![];
     let mut seed = cli.seed;
     for spec in &specs {
-        let addr = start_listener(spec);
+        let addr = match start_listener(spec) {
+            Ok(a) => a,
+            Err(e) => {
+                report.inconclusive_fatal(&format!("could not build a listener from a configuration file: {e}"));
+                return;
+            }
+        };
         if !tcp::wait_listening(addr, Duration::from_secs(10)).await {
             report.inconclusive_fatal("a listener started from the configuration did not come up within 10 s");
             return;
